@@ -105,6 +105,16 @@ func genC16(rng *rand.Rand, n int, emit func(Case), dist map[string]int) {
 		cfgT{"Group.Static /dot/files root=\"\"", mk(func(e *echo.Echo) { e.Group("/dot").Static("/files", "") }), "/dot/files", 0},
 		cfgT{"Echo.Static /cur root=./", mk(func(e *echo.Echo) { e.Static("/cur", "./") }), "/cur", 0})
 	os.Chdir(base)
+	// the instance's file system re-rooted first: later relative roots are relative to THAT directory, not to the process cwd
+	cfgs = append(cfgs,
+		cfgT{"Echo.Filesystem = MustSubFS(fs, <root>), then Static /o -> other (does not exist under the root; base/other holds a secret)", mk(func(e *echo.Echo) {
+			e.Filesystem = echo.MustSubFS(e.Filesystem, root)
+			e.Static("/o", "other")
+		}), "/o", 0},
+		cfgT{"Echo.Filesystem = MustSubFS(fs, <root>), then Static /s -> sub", mk(func(e *echo.Echo) {
+			e.Filesystem = echo.MustSubFS(e.Filesystem, root)
+			e.Static("/s", "sub")
+		}), "/s", 0})
 	segsA := []string{"..", ".", "%2e%2e", "%2e", "%2f", "%5c", "\\", "", "sub", "deep", "file.txt", "index.html", "secret.txt", "other", "rootx",
 		"%252e%252e", "..%2f", "%2e%2e%2f", "%2E%2E", "..%5c", "assets", "a.css", "f.txt", "x.txt", "secret2.txt", "secret3.txt", "root", "%00", "..;"}
 	for it := 0; it < n; it++ {
@@ -152,7 +162,7 @@ func genC16(rng *rand.Rand, n int, emit func(Case), dist map[string]int) {
 			target = cf.prefix + []string{"//", "/%2f", "%2f%2f", "/%2F", "///"}[rng.Intn(5)] + abs
 		}
 		if rng.Intn(5) == 0 { // a clean path of an existing file
-			rel := []string{"/file.txt", "/sub/f.txt", "/sub/deep/x.txt", "/index.html", "/assets/a.css"}[rng.Intn(5)]
+			rel := []string{"/file.txt", "/sub/f.txt", "/sub/deep/x.txt", "/index.html", "/assets/a.css", "/secret2.txt", "/secret.txt", "/secret3.txt", "/f.txt"}[rng.Intn(9)]
 			target = cf.prefix + rel
 		}
 		var req *http.Request
@@ -193,7 +203,7 @@ func genC16(rng *rand.Rand, n int, emit func(Case), dist map[string]int) {
 		}
 		// a clean path naming a regular file under the root is served exactly
 		rp := req.URL.Path
-		if strings.HasPrefix(rp, cf.prefix+"/") && cf.kind != 1 && !strings.Contains(cf.name, "IgnoreBase") && !strings.Contains(cf.name, "File route") && !strings.Contains(cf.name, "group wildcard") {
+		if strings.HasPrefix(rp, cf.prefix+"/") && cf.kind != 1 && !strings.Contains(cf.name, "IgnoreBase") && !strings.Contains(cf.name, "File route") && !strings.Contains(cf.name, "group wildcard") && !strings.Contains(cf.name, "MustSubFS") {
 			rel := strings.TrimPrefix(rp, cf.prefix)
 			if want, isFile := files["root"+rel]; isFile && path.Clean(rel) == rel && req.URL.RawPath == "" {
 				if rec.Code != 200 || body != want {
